@@ -2,6 +2,7 @@
 import ast
 import concurrent.futures
 import json
+import os
 import re
 
 import vlib
@@ -17,7 +18,8 @@ MANIFEST = {
              "and C06 theorems, and for full frames by the assembled message codecs of C01): legacy delivery of every list of frames written "
              "back to back; modern delivery for EVERY segmentation the specification allows (inductive relation: any grouping of whole envelopes "
              "into self-contained segments, any cut of one envelope of any size - inside its 9-byte header as well - into any number of parts "
-             "carried by non-self-contained segments, zero-length parts included, any mixture, no bound on counts or sizes) with an empty "
+             "carried by non-self-contained segments, zero-length parts included, any mixture, no bound on counts or sizes; envelopes that are a bare "
+             "9-byte header with an empty body - OPTIONS, READY - in any position, stated separately for the end of a self-contained segment) with an empty "
              "accumulator at the end; what each end transmits (legacy: the plain frame; modern: one self-contained segment holding one envelope "
              "with the compression flag clear; an envelope above 131071 bytes is refused, never split); the layout switch (both ends switch at "
              "the same envelope boundary for v5, never for v2-v4/DSE). NOT proved, exercised by the harness only: TCP, partial reads, deadlines "
@@ -39,6 +41,31 @@ Definition flat2 (l : list (Z * Z)) : list (list Z) := map (fun x : Z * Z => [fs
 Definition show_rx (x : list (bool * Z * Z) * list (Z * Z * Z) * Z * Z * Z) : list (list (list Z)) :=
   match x with (p, d, o, t, a) => [flatp p; flat3 d; [[o; t; a]]] end.
 """
+
+
+# The model's loop condition of readSelfContainedSegment (Conn.sc_more: remaining > 0) was transcribed from this source text;
+# the check looks the text up on every run (the behaviour is tied by the sessions and the correspondence, this ties the reading).
+ANCHORS = [
+    ("client/client.go", "func (c *CqlClientConnection) readSelfContainedSegment(", "for payloadReader.Len() > 0 {"),
+    ("client/server.go", "func (c *CqlServerConnection) readSelfContainedSegment(", "for payloadReader.Len() > 0 {"),
+]
+
+
+def source_anchors():
+    bad = []
+    for rel, head, want in ANCHORS:
+        try:
+            src = open(os.path.join(vlib.REPO, rel)).read()
+        except OSError as e:
+            bad.append("%s: %s" % (rel, e))
+            continue
+        i = src.find(head)
+        body = src[i:src.find("\n}\n", i)] if i >= 0 else ""
+        if want not in " ".join(body.split()):
+            bad.append("%s: %s...) no longer contains `%s` (Conn.read_sc / sc_more model that loop: every envelope of a self-contained payload, "
+                       "a bare 9-byte header included, is decoded while any byte is unread); found: %s" % (
+                           rel, head, want, " ".join(l.strip() for l in body.split("\n") if l.strip().startswith("for "))[:200] or "no such function"))
+    return bad
 
 
 def hxs(h):
@@ -146,6 +173,9 @@ def check(run):
     if "harness" in fails:
         broken.append("harness conn does not build against /repo: " + fails["harness"].strip()[-600:])
 
+    for b in source_anchors():
+        broken.append("source anchor: " + b)
+
     # ---- sockets first (they do not need coq); the model is built before the proofs so that the correspondence run
     #      (coqc on generated files, no lock needed once model/Conn.vo is up to date) overlaps with the proof check
     pool = concurrent.futures.ThreadPoolExecutor(max_workers=max(2, min(8, vlib.NCPU)))
@@ -189,6 +219,7 @@ def check(run):
     samples = []
     observations = {"startup_response_compressed": 0, "oversize_send_refused": None, "lowercase_compression_name_answered": None}
     corr = []
+    bare_sessions = bare_envelopes = 0
     for d in results:
         r, rep = d["result"], d["replay"]
         key = "%s v%s %s" % (r["mode"], r["version"], r["compression"])
@@ -211,11 +242,17 @@ def check(run):
             if f.get("class") == "harness":
                 broken.append("harness: session %s: %s" % (r["id"], f["what"]))
                 continue
-            findings.append({"kind": "session", "class": f.get("class", ""), "mode": r["mode"], "version": r["version"],
-                             "compression": r["compression"], "auth": r["auth"], "what": "%s: %s" % (r["id"], f["what"]), "replay": rep})
+            fi = {"kind": "session", "class": f.get("class", ""), "mode": r["mode"], "version": r["version"],
+                  "compression": r["compression"], "auth": r["auth"], "what": "%s: %s" % (r["id"], f["what"]), "replay": rep}
+            if f.get("detail"):
+                fi["detail"] = f["detail"]      # which envelope, where in which segment of the replay's plan
+            findings.append(fi)
         if r.get("corr"):
             corr.append((r["id"], r["corr"], rep))
-        if len(samples) < 4 and r["mode"] in ("rawclient", "rawserver") and r["segments"] > 2:
+        if cls == "empty-tail":
+            bare_sessions += 1
+            bare_envelopes += sum(1 for sp in (rep.get("script") or {}).get("specs", []) if sp.get("kind") in ("options", "ready"))
+        if len(samples) < 5 and r["mode"] in ("rawclient", "rawserver") and r["segments"] > 2 and (len(samples) < 3 or cls == "empty-tail"):
             samples.append({"session": r["id"], "script": rep, "frames": r["frames"], "segments": r["segments"], "max_envelope": r["max_envelope"]})
 
     # ---- correspondence: the same scripts through the model (vm_compute inside coqc), sharded; runs while the proofs are checked
@@ -272,7 +309,10 @@ def check(run):
         "nil/empty checked on both sides; rawclient / rawserver = a peer written on the frame and segment codecs against the real server / real "
         "client with seeded segmentations (1..k envelopes per self-contained segment, one envelope of a few hundred KiB cut at seeded points, maximal "
         "parts, small envelopes cut into many parts, two-part splits at chosen (thorough: every) split point including cuts inside the 9-byte "
-        "header, a header spread over many parts with zero-length parts), chunked writes, and the v5 bytes written "
+        "header, a header spread over many parts with zero-length parts; envelopes that are a bare 9-byte header with an empty body - OPTIONS towards "
+        "the server, READY towards the client - first, in the middle, last and alone in self-contained segments), every envelope sent must be handed "
+        "to the user exactly once and in the order sent (count and order by stream id; the script ends with an envelope that has a body, so the verdict "
+        "does not wait on a timeout), chunked writes, and the v5 bytes written "
         "by the real side checked (handshake unframed, every segment decodes, envelopes inside have the compression flag clear); evaluations = "
         "envelopes + segments exchanged; non-trivial = a distinct (mode, version, compression, authentication, script class) session that carried an "
         "envelope above 65535 bytes, or segments, or a negotiated compression; traces validated = v5 raw sessions re-evaluated by the model "
@@ -282,6 +322,8 @@ def check(run):
     run.coverage["exhaustive"] = False
     run.coverage["input_distribution"] = dist
     run.coverage["observations"] = observations
+    observations["bare_header_sessions"] = bare_sessions
+    observations["bare_header_envelopes"] = bare_envelopes
     run.note("sessions: %d, envelopes+segments exchanged: %d, model re-evaluations: %d, v5/legacy STARTUP responses sent compressed by the server: %d, "
              "v5 send above one segment refused: %s" % (len(results), evaluations, compared, observations["startup_response_compressed"],
                                                         observations["oversize_send_refused"]))
@@ -296,6 +338,10 @@ def check(run):
     # ---- verdict
     known = vlib.known_findings("C15") + [e for e in vlib.known_findings("C08") if (e.get("match") or {}).get("class") == "lz4-offset-65536"]
     reported = set()
+    # the most specific failing inputs first: a raw-peer session that names the envelope and its place in the segmentation, then other
+    # sessions, then model/code disagreements, then a crash / timeout of the harness process
+    findings.sort(key=lambda f: (0 if f.get("detail") else 1 if f["kind"] == "session" and f.get("mode") in ("rawclient", "rawserver") else
+                                 2 if f["kind"] == "session" else 3 if f["kind"] == "correspondence" else 4))
     for f in findings:
         k = next((e for e in known if e.get("match") and all(f.get(a) == b or (a == "algorithm") for a, b in e["match"].items())), None)
         if k:
@@ -305,7 +351,9 @@ def check(run):
         else:
             run.violation({"property": "C15", "failing_input": {x: y for x, y in f.items() if x != "replay"}, "replay": f.get("replay"),
                            "how_to_replay": "build/harness-conn replay <this file>  (re-runs the session: version, compression, authentication, "
-                                            "envelope kinds and sizes, segmentation)",
+                                            "envelope kinds and sizes, segmentation = replay.script.plan: one entry per segment, self-contained or not, "
+                                            "payload = the slices [envelope index, from, to]; the harness appends one more segment holding the envelope "
+                                            "that ends the script)",
                            "broken": broken})
             if len(run.violations) >= 5:
                 break
